@@ -13,7 +13,7 @@ for name in sys.argv[1:]:
     sh(f"git -C /repo worktree remove --force {wt}")
     assert sh(f"git -C /repo worktree add --detach {wt} HEAD").returncode == 0
     try:
-        assert sh(f"git -C {wt} apply {d}/patch.diff").returncode == 0
+        assert sh(f"git -C {wt} apply {d}/patch.diff").returncode == 0 or sh(f"cd {wt} && patch -p1 --fuzz=3 -s < {d}/patch.diff").returncode == 0, "patch no longer applies"
         t0 = time.time()
         c = sh(f"cd {V} && ./check {pid} --tier quick --repo {wt}")
         meta["check_exit"] = c.returncode
